@@ -169,6 +169,7 @@ pub struct Sim {
     event_seq: AtomicU64,
     devices: Mutex<HashMap<(u64, u64), Arc<SimDisk>>>,
     default_devices: AtomicBool,
+    default_plan: Mutex<Option<crate::disk::FaultPlan>>,
     fatal_hook: Mutex<Option<Box<dyn Fn(&Fatal) + Send>>>,
     self_ref: Mutex<Option<std::sync::Weak<Sim>>>,
 }
@@ -225,6 +226,7 @@ impl Sim {
             event_seq: AtomicU64::new(0),
             devices: Mutex::new(HashMap::new()),
             default_devices: AtomicBool::new(false),
+            default_plan: Mutex::new(None),
             fatal_hook: Mutex::new(None),
             self_ref: Mutex::new(None),
         });
@@ -512,6 +514,21 @@ impl Sim {
 
     pub fn set_default_devices(&self, on: bool) {
         self.default_devices.store(on, Ordering::SeqCst);
+    }
+
+    /// Fault plan given to devices the simulator creates by itself for unregistered files.
+    pub fn set_default_plan(&self, plan: Option<crate::disk::FaultPlan>) {
+        *self.default_plan.lock().unwrap() = plan;
+    }
+
+    pub fn auto_devices(&self) -> Vec<Arc<SimDisk>> {
+        self.devices
+            .lock()
+            .unwrap()
+            .values()
+            .filter(|d| d.label == "auto")
+            .cloned()
+            .collect()
     }
 
     pub fn device_by_path(&self, path: &str) -> Option<Arc<SimDisk>> {
@@ -915,6 +932,9 @@ impl Controller for Sim {
         }
         if self.default_devices.load(Ordering::SeqCst) {
             let disk = SimDisk::from_file(&self.me(), file, "auto");
+            if let Some(plan) = self.default_plan.lock().unwrap().clone() {
+                disk.set_plan(plan);
+            }
             devices.insert(key, Arc::clone(&disk));
             return Some(disk as Arc<dyn SimDevice>);
         }
